@@ -192,7 +192,7 @@ func genCase(rt *rapid.T) Case {
 			op.Rel = rapid.IntRange(0, 7).Draw(rt, "relayed") == 0
 			op.TS = rare(rt, "ts", 7, 5)
 			op.Rep = rare(rt, "replay", 9, 8)
-			op.Forge = rare(rt, "forge", 7, 7)
+			op.Forge = rare(rt, "forge", 6, 8)
 			if op.Forge == 3 {
 				op.P = append(op.P, genTopic(rt, nAcc, pats))
 			}
@@ -322,8 +322,8 @@ func TestRegSpaceTagAlias(t *testing.T) {
 	outerT = t
 	vstat.One(t, prop, Case{Kind: kindSeq, NAcc: 2, NClients: 1, Ops: []Op{
 		{K: opRawOpen, Acc: 0}, {K: opRawOpen, Acc: 1},
-		{K: opRawSub, S: 0, Sp: 2, P: [][]int{{sgB}}},       // space "s0/a", pattern "b"
-		{K: opRawSub, S: 0, Sp: 0, P: [][]int{{sgB, sgB}}},  // space "s0", pattern "b/b"
+		{K: opRawSub, S: 0, Sp: 2, P: [][]int{{sgB}}},               // space "s0/a", pattern "b"
+		{K: opRawSub, S: 0, Sp: 0, P: [][]int{{sgB, sgB}}},          // space "s0", pattern "b/b"
 		{K: opRawPub, S: 1, Sp: 0, P: [][]int{{sgA, sgB}}, Acc: -1}, // space "s0", topic "a/b"
 		{K: opRawPub, S: 1, Sp: 0, P: [][]int{{sgB, sgB}}, Acc: -1},
 	}}, run)
